@@ -60,3 +60,26 @@ pub use crate::tracker_client::TrackerClient;
 pub use crate::tracker_resp::TrackerResp;
 
 pub use crate::session::Session;
+
+/// Re-exports of internal items for the external verification harness.
+#[cfg(feature = "verif")]
+#[allow(missing_docs)]
+pub mod verif {
+    pub use crate::bcodec::bencoder::BEncoder;
+    pub use crate::commands::{
+        BitfieldCmd, BroadCmd, ExtractorCmd, HaveCmd, InitCmd, NotInterestedCmd, PeerCmd, PieceCmd,
+        ReqData, RequestCmd, TrackerCmd, UnchokeCmd,
+    };
+    pub use crate::connection::Connection;
+    pub use crate::constants::*;
+    pub use crate::extractor::Extractor;
+    pub use crate::frame::Frame;
+    pub use crate::messages::{
+        Bitfield, Cancel, Choke, Handshake, Have, Interested, KeepAlive, NotInterested, Piece,
+        Request, Unchoke,
+    };
+    pub use crate::peer::Peer;
+    pub use crate::peer_handler::PeerHandler;
+    pub use crate::serializer::Serializer;
+    pub use crate::session::Status;
+}
